@@ -2,6 +2,7 @@
 import Restful.Driver.Routing
 import Restful.Spec.Order
 import Restful.Spec.Slash
+import Restful.Spec.Common
 namespace Restful.Driver
 open SExp
 
@@ -24,7 +25,10 @@ def handleClass : SExp → Option String
         ++ specLine "scoresSeparate" (Spec.scoresSeparateB cfg req)
         ++ specLine "sameShapeRoots" (Spec.hasSameShapeRoots cfg)
         ++ specLine "jsrSlashSafe" (Spec.jsrSlashSafeB implEnv cfg)
-        ++ specLine "jsrHasWildcard" (Spec.jsrHasWildcard cfg) ++ ")")
+        ++ specLine "jsrHasWildcard" (Spec.jsrHasWildcard cfg)
+        ++ specLine "wfCommon" (Spec.wfCommon cfg) ++ specLine "rootsDistinct" (Spec.rootsDistinct cfg)
+        ++ specLine "rootsClean" (Spec.rootsClean cfg) ++ specLine "routeIdsDistinct" (Spec.routeIdsDistinct cfg)
+        ++ specLine "normalPath" (Spec.normalPath req.path) ++ specLine "ranksAgree" (Spec.ranksAgree implEnv cfg req) ++ ")")
     | _, _ => some s!"(bad-class {id})"
   | _ => none
 
